@@ -10,6 +10,8 @@ for name in sorted(os.listdir('/verif/seeded')):
     det = ', '.join(sorted(m.get('detected_by', []))) or '**missed**'
     first = m.get('first_run', '')
     mark = 'after strengthening' if first.startswith('missed') else 'as first written'
+    if m.get('neutralised_by'):
+        det, mark = 'none any more', 'no longer a violation: ' + m['neutralised_by']
     rows.append('| %s | %s | %s | %s | %s (%s) |' % (name, m.get('breaks', m.get('property')), m.get('description', '').replace('|', '/'), m.get('needs_to_manifest', '').replace('|', '/'), det, mark))
 table = ['| seed | breaks | change | needs, in order to manifest | reported by |', '|---|---|---|---|---|'] + rows
 s = open('/verif/DESIGN.md').read()
